@@ -376,7 +376,12 @@ def run(ctx, R, R2):
                 rv = p.ret()
                 d = [x for x in p.decisions if x[2][0] == 'bin' and x[2][1] in ('Ge', 'Lt') and eq(rlin(x[2][3]), NT)]
                 if not d:
-                    ctx.undecided(R2, 'index-path', 'the index path of find_input has no "value >= ntrans" test', fn=f)
+                    other = [x for x in p.decisions if x[2][0] == 'bin' and x[2][1] in ('Eq', 'Ne', 'Ge', 'Lt', 'Gt', 'Le') and byte_index(x[2][2]) is not None]
+                    if other:
+                        ctx.violation(R2, 'index-path:absent-test', 'an index entry means "no transition" exactly when it is >= ntrans (the writer stores forward positions 0..ntrans-1, 255 only by default); '
+                                      'found the test %s: with 256 transitions the entry 255 is a real transition' % fmt(other[-1][2])[:80], fn=f)
+                    else:
+                        ctx.undecided(R2, 'index-path', 'the index path of find_input has no "value >= ntrans" test', fn=f)
                     continue
                 e, val = d[-1][2], d[-1][3]
                 idx = byte_index(e[2])
